@@ -41,7 +41,12 @@ def gen_hash():
     core.write_if_changed(core.GEN / "GenHash.v", hashfmt.translate(core.PKG))
 
 
-ALL = [gen_share, gen_tables, gen_stats, gen_pragma, gen_ops, gen_hash]
+def gen_sites():
+    from pyt2coq import sites
+    core.write_if_changed(core.GEN / "GenSites.v", sites.translate(core.PKG))
+
+
+ALL = [gen_share, gen_tables, gen_stats, gen_pragma, gen_ops, gen_hash, gen_sites]
 
 
 def gen_all(strict=True):
